@@ -110,7 +110,7 @@ theorem famCtx_initial {Fam : Family} {G : MG Name} {pops : List Name} (σ' : Va
       left; rw [hreg]; exact hm
     · intro v hv
       obtain ⟨m, _, rfl⟩ := (mem_plainVars v _).1 hv
-      exact ⟨rfl, rfl⟩
+      exact ⟨rfl, rfl, rfl⟩
     · intro S _ σ
       show TianProb.F (Fam.dom (some targetPop)) G [] S σ = _
       rw [hT, hreg]
@@ -120,7 +120,7 @@ theorem famCtx_initial {Fam : Family} {G : MG Name} {pops : List Name} (σ' : Va
       have e2 : G.nodes.filter (· ∉ ([] : List Name)) = G.nodes := by simp
       rw [e1, e2]
       rfl
-  have hplain : ∀ v ∈ plainVars G.nodes, v.ivs = [] ∧ v.star = none := jc.plain
+  have hplain : ∀ v ∈ plainVars G.nodes, v.ivs = [] ∧ v.star = none ∧ v.isIv = false := jc.plain
   have hin : ∀ n ∈ vnames (plainVars G.nodes), n ∈ regularNodes G ∨ n ∈ (famCtx Fam G pops σ' h).ign := jc.within
   refine ⟨rsub_self, ⟨trivial, ?_⟩, trivial, ?_, fun _ _ => trivial, fun z hz => (by cases hz),
     Or.inl ⟨popVar targetPop, plainVars G.nodes, rfl, jc⟩⟩
@@ -218,7 +218,7 @@ theorem coin_famCtx (G : MG Name) (hG : G.WF) (hr : G.Ranked) (pops : List Name)
   | cons v0 c' =>
     right
     have hname : ∀ v ∈ v0 :: c', v.name = v0.name := fun v hv => hone v hv v0 List.mem_cons_self
-    have hv0 := (hv v0 (by simp)).2.2
+    have hv0 := (hv v0 (by simp)).2.2.2
     have hfil : ((G.nodes.filter (· ∉ w.map (·.name))).filter (· ∈ (v0 :: c').map (·.name))).length = 1 := by
       have hnd : (G.nodes.filter (· ∉ w.map (·.name))).Nodup := hG.nodup.filter _
       have hmem : v0.name ∈ G.nodes.filter (· ∉ w.map (·.name)) := by
